@@ -21,8 +21,8 @@ RULE = ('(A) one parsed document over the full tag vocabulary (all node kinds in
         'non-trivial = depth >=2 with >=1 explicit and >=1 inherited flag, or a function/path node with children; distinct = hash of the case')
 BUDGET = {'quick': (4, 250), 'thorough': (16, 4000)}
 SHRINK_CAP = {'quick': 300, 'thorough': 3000}
-ASSUMPTIONS = ['node-by-node equality covers kinds, content, priority, safety, targets / reference points / file names and metadata (what the '
-               'statement lists); delete / allow_new flags are compared through behaviour (substitution in merges)']
+ASSUMPTIONS = ['node-by-node equality covers kinds, content, priority, safety, targets / reference points / file names, metadata and the public '
+               'delete / explicit_delete / allow_new flags (any difference there is observable by some later merge); behaviour is compared as well']
 
 
 @st.composite
@@ -68,7 +68,8 @@ def merge_trees(trees):
 def node_snap(n):
     a = n.ayns
     tn = type(n).__name__
-    d = {'kind': tn, 'priority': a.priority, 'safe': a.safe, 'metadata': repr(sorted(a.metadata.items(), key=str)), 'source_file': a.source_file}
+    d = {'kind': tn, 'priority': a.priority, 'safe': a.safe, 'metadata': repr(sorted(a.metadata.items(), key=str)), 'source_file': a.source_file,
+         'delete': a.delete, 'explicit_delete': a.explicit_delete, 'allow_new': a.allow_new}
     if hasattr(n, '_func'):
         f = a.func
         d['func'] = (type(f).__name__, str(f)) if isinstance(f, str) else getattr(f, '__qualname__', type(f).__name__)
